@@ -17,18 +17,18 @@ CLAIMS = {
  'C10': ('proof', 'result fits ==> data()/capacity() unchanged and no allocator traffic; reserve contract; at most one allocation per growing call.', '5.10'),
  'C11': ('proof', 'lvalue-argument contracts have no non-aliasing precondition; the post-state is stated against the argument\'s entry value.', '5.11'),
  'C12': ('proof', 'length_error clauses, allocate(n<=max_size) call-site obligation, bit-precise overflow/conversion checks on every extracted arithmetic node.', '5.12'),
- 'C13': ('proof', 'byte-frame obligations (w_ok/r_ok of every element access), requirement-minimality masks (ONLY_KINDS) on the leaves.', '5.13'),
+ 'C13': ('proof', 'byte-frame obligations (w_ok/r_ok of every element access), requirement-minimality masks (ONLY_KINDS) on the leaves, the trivially copyable twin and the non-assignable archetype configurations under the same contracts; conversions: for every scalar pair for which the header\'s own traits select the byte-copy path, CBMC decides bytes(static_cast<To>(f)) == bytes(f) for all f (loop-free, full domain), plus compile-acceptance of convertible sources under every standard (native value comparison is a supporting run).', '5.13'),
  'C14': ('proof', 'new capacity >= needed and >= 1.5x old (saturating) on every reallocating function; arithmetic leaf proved for the full 64-bit range.', '5.14'),
  'C07': ('proof', 'Allocator identity is ghost state: constructors, copy/move assignment and swap contracts state get_allocator() per propagation trait (configurations main, aprop, aeq, pocs and the other trait combinations in the thorough tier); BLOCK ties every buffer to the current allocator.', '5.7'),
  'C09': ('proof', 'steal_permitted (written from the property) ==> data() is the source\'s old data(), no element operation (ONLY_KINDS(0)), no allocator traffic, source default-state; otherwise element-wise; same-capacity and cross-capacity (pair_lt/pair_gt) move assignment, move construction, swap.', '5.9'),
  'C15': ('proof', 'Forward-iterator protocol (never dereferenced/advanced at or beyond last) as preconditions of the iterator model, range length without truncation, k-th element from k-th position; single-pass (input iterator) loops are not under contract yet.', '5.15'),
- 'C18': ('proof', 'noexcept truthfulness only: every extracted function whose compiler-evaluated exception specification is noexcept carries the obligation that no exception leaves it (r8); the documented-condition grid (b) and trait facts (c) are not built.', '5.18'),
+ 'C18': ('proof', 'every extracted function whose compiler-evaluated exception specification is noexcept carries the obligation that no exception leaves it (r8); for the move constructor, allocator constructor, operator=(&&), assign(&&), swap, clear and the observers the declared specification (evaluated by the compiler through the noexcept operator) is compared with the README condition in every allocator-trait / element / N==0 configuration, and the documented condition implies !exc on the body; std::allocator, iterator-trait and nested-type facts are not covered.', '5.18'),
  'C17': ('proof', 'The header is extracted under -std=c++11/14/17/20/23 by the same compiler front end; per function, identical extracted text (with everything it inlines) shares the C++20 proof, differing text is proved against the SAME contract - same contract under every standard is the statement of the property. GCC and code generation are out of reach.', '5.17'),
+ 'C08': ('proof', 'configuration class CONSTEVAL (std::is_constant_evaluated () true, nothing throws, the container always owns an allocator block): the extracted constant-evaluation branches are proved against the SAME contracts as the run-time paths (sizes, values, returned positions, growth), with the lifetime/ledger/pointer obligations standing in for the evaluator\'s UB and leak detection, and memcpy/memmove unreachable; the compiler\'s evaluator itself is not modelled; public wrappers and two-container operations are not in the class yet.', '5.8'),
  'C01': ('proof', 'std::vector post-state (size, returned position, prefix preserved, new elements equal the argument) as ensures clauses over Skolemised cells, per operation under contract.', '5.1'),
 }
 
 NA = {
- 'C08': 'not yet claimed: CONSTEVAL=1 configuration not yet proved',
  'C16': 'not yet claimed: comparison / non-member contracts not written yet',
  'C20': 'behaviour of a Python/natvis script inside a debugger: no contract on the C++ functions can express or decide it (DESIGN.md 5.20)',
 }
